@@ -805,6 +805,79 @@ def decorations(mod, x, rng, level, with_positions=True):
     return out
 
 
+def field_starts(x):
+    """positions where a field of x begins: 0 and the positions right after a character that is not a letter or digit"""
+    return [i for i in range(len(x)) if x[i].isalnum() and (i == 0 or not x[i - 1].isalnum())]
+
+
+def self_similar(x, rng, limit):
+    """[(label, y)]: x with a copy of one of its own substrings - as written, lower case, upper case, swapped case -
+    written over, or inserted at, another part of it.  Numbers with a free-form part (ISIL local identifier, court
+    names, BIC branch, ...) can legitimately repeat their own prefix; code that finds a part of the number by
+    *searching for its text* (str.replace / str.find / str.split on a value instead of a position) goes wrong
+    exactly there.  Sources: every substring of 1-4 characters that starts a field (after a separator / at 0), the
+    whole first field, and a sample of other substrings; targets: every other position.  At most `limit` variants
+    (a deterministic sample when there are more).  The caller keeps the variants that validate() accepts."""
+    n = len(x)
+    if n < 3:
+        return []
+    starts = field_starts(x)
+    sources = []
+    for i in starts:
+        j = i
+        while j < n and x[j].isalnum():
+            j += 1
+        for k in range(1, min(4, j - i) + 1):
+            sources.append((i, i + k))
+        if j - i > 4 and i == 0:
+            sources.append((i, j))
+    others = [(i, i + k) for i in range(n) for k in (1, 2, 3) if i + k <= n and x[i:i + k].isalnum()
+              and (i, i + k) not in sources]
+    if others:
+        sources += rng.sample(others, min(len(others), 6))
+    out, seen = [], {x}
+    for (i, j) in sources:
+        s = x[i:j]
+        forms = []
+        for t in (s, s.lower(), s.upper(), s.swapcase()):
+            if t not in forms:
+                forms.append(t)
+        for k in range(n + 1):
+            for t in forms:
+                cands = []
+                if k + len(t) <= n and not (k == i and t == s):
+                    if k >= j or k + len(t) <= i:       # written over another part (the source stays intact)
+                        cands.append(('self-similar:over', x[:k] + t + x[k + len(t):]))
+                if k >= j or k <= i:
+                    cands.append(('self-similar:insert', x[:k] + t + x[k:]))
+                for lab, y in cands:
+                    if y not in seen:
+                        seen.add(y)
+                        out.append((lab, y))
+    if len(out) > limit:
+        idx = sorted(rng.sample(range(len(out)), limit))
+        out = [out[i] for i in idx]
+    return out
+
+
+def case_presentations(y):
+    """case spellings of a whole number and of its first field only (agency / country prefixes are the part that
+    formats normalise)"""
+    out = []
+    n = len(y)
+    j = 0
+    while j < n and y[j].isalnum():
+        j += 1
+    cands = [y.lower(), y.upper(), y.swapcase(), y[:j].lower() + y[j:], y[:j].upper() + y[j:].lower(),
+             y[:j].lower() + y[j:].upper()]
+    if j == n and n > 2:     # no separator: treat a leading two letter code as the first field
+        cands += [y[:2].lower() + y[2:], y[:2].upper() + y[2:].lower()]
+    for c in cands:
+        if c != y and c not in out:
+            out.append(c)
+    return out
+
+
 def diverse(numbers, k, key=None):
     """up to k numbers with pairwise different shapes first (length + character classes), then the rest"""
     def shape(s):
